@@ -25,7 +25,7 @@ CONSTANTS Slots,      \* set of slot names (strings)
           Sel,        \* [Tasks -> SUBSET Slots] (cfg: Sel <- SelOne / SelTwo ...)
           LastT,       \* the task whose StartRead is interleaved with the writes
           MaxW,       \* number of catalog writes in a history
-          InitKinds,  \* "empty" | "any": initial catalogs considered
+          InitKinds,  \* "empty" | "live" (first incarnation of every slot created, no partition) | "any": initial catalogs
           WithDrain,  \* FALSE in plan generation: only environment / reader steps are plan steps
           PartFix     \* TRUE = repaired partition consumer
 
@@ -72,6 +72,7 @@ ValidCat(cf, pf) ==
         /\ pf[<<c, i>>] # "none" => cf[<<c, i>>] \in CListed
 InitCats ==
     IF InitKinds = "empty" THEN {<<[id \in Ids |-> "none"], [id \in Ids |-> "none"]>>}
+    ELSE IF InitKinds = "live" THEN {<<[id \in Ids |-> IF id[2] = 1 THEN "created" ELSE "none"], [id \in Ids |-> "none"]>>}
     ELSE {x \in [Ids -> {"none", "creating", "created", "dropping", "dropped", "tombstone"}] \X [Ids -> {"none", "created", "dropped"}] :
               ValidCat(x[1], x[2])}
 
